@@ -19,7 +19,8 @@ node  = {"t":"lit","s":text}
       | {"t":"match","name":n,"kids":[node]}                   reserved
       | {"t":"cdata","s":text}                                 <![CDATA[text]]> written by the template author (literal; oracle only:
                                                                the Lean model has no CDATA events, such a case has no model counterpart)
-      an "el" whose name is script/style (RAW) has no py:content and at most one literal child without `<`, `&`;
+      an "el" whose name is script/style (RAW) has no py:content / py:attrs / py:for; its children are literals
+      without `</` and sites `${v}` / `$v` with a context variable (wave 4);
       static elements (literal attributes and text only) are written two or three times in a row or
       spread over a body, so that later events of every kind are served from the serializer's cache
 attr  = {"name":n,"parts":[{"lit":s} | {"e":expr,"form":"brace"|"dollar"}]}
@@ -54,6 +55,13 @@ VOID = ['br', 'hr', 'img']
 RAW = ['script', 'style']
 RAW_TEXTS = ['var a = 1;', 'var a = 1;', 'if (a > 1) { f("x") }', 'p > b { color: red }', ' ', 'x', '\n  var b = 2;  \n\n',
              'a = b > c ? "1" : \'2\';']
+# wave 4 (package rawtext): the specification-side reader has a raw-text mode now, so the literal text of a raw-text
+# element may hold `<` and `&` (never `</`), and raw-text elements may hold substitution sites (`${v}` with a context
+# variable): under xml / xhtml `script` is an ordinary element (the value is escaped and comes back verbatim), under
+# html the content is raw — the skeleton carries the strings as they were emitted; when they hold `</` the case is the
+# property's own exception (not judged, `raw_etago`).
+RAW_TEXTS2 = ['if (a < b && c) { }', 'a<b', 'x & y', 'var s = "', '";', ' ', 'p > b { }', '<', '&amp;', '<!-- ', ' -->', ']]>',
+              'a = "<b>" + ', ';\n', '// ']
 CDATA_TEXTS = ['x < y & z', '<b>', ']] >', 'a', '&amp;', ' \n', '</root>', '"\'']
 RAW_ATTRS = [[], [], [['type', 'text/javascript']], [['type', 'text/css'], ['title', 'a"b']]]
 ATTRS = ['title', 'class', 'href', 'id', 'alt', 'data-x', 'lang', 'name', 'value', 'style', 'onclick']
@@ -259,6 +267,94 @@ def val_text_toks(v):
             out.extend(scalar_text_toks(x, in_list=True))
         return out
     return scalar_text_toks(v)
+
+
+def raw_scalar_toks(v, in_list=False):
+    """a value inside a raw-text element under html: its string as it is emitted (a Markup is its own string)"""
+    k = v['k']
+    if k == 'm':
+        return [T(v['s'])]
+    if k == 'o' and v.get('html'):
+        return [['ALT', [[T(v['str'])], [T(v['html']['s'])]]]]
+    return scalar_text_toks(v, in_list)
+
+
+def raw_val_toks(v):
+    if v['k'] in ('l', 'g'):
+        out = []
+        for x in v['items']:
+            out.extend(raw_scalar_toks(x, in_list=True))
+        return out
+    return raw_scalar_toks(v)
+
+
+def raw_contents(case):
+    """for every raw-text element instance of an html case: the alternatives of its content (strings)"""
+    import itertools
+    if case['method'] != 'html' or case['mode'] != 'template':
+        return []
+    toks = Spec(case).expected()
+    out, cur = [], None
+    for t in toks:
+        if t[0] == 'S' and t[1] in RAW:
+            cur = []
+        elif t[0] == 'E' and cur is not None:
+            alts = set()
+            for combo in itertools.islice(itertools.product(*cur), 64):
+                alts.add(''.join(combo))
+            out.append(sorted(alts))
+            cur = None
+        elif cur is not None:
+            if t[0] == 'T':
+                cur.append([t[1]])
+            elif t[0] == 'ALT':
+                cur.append([''.join(x[1] for x in alt if x[0] == 'T') for alt in t[1]])
+    return out
+
+
+def raw_etago(case):
+    """an html case in which the content of some raw-text element holds `</`: the property's own exception (inside
+    script/style no escaping takes place, so the payload can end the element) — not judged, and readers differ on
+    where such raw text ends (HTML 4: at any `</`; html.parser: at `</script`)"""
+    return any('</' in s for alts in raw_contents(case) for s in alts)
+
+
+def raw_site_shapes(case):
+    """dist keys: raw-text elements with substitution sites inside, per method; hostile content; etago"""
+    out = []
+
+    def walk(ns, after_raw_site):
+        for n in ns:
+            if not isinstance(n, dict):
+                continue
+            if n.get('t') == 'el' and n['name'] in RAW:
+                sites = [k for k in n['kids'] if k['t'] == 'site']
+                if sites:
+                    out.append('raw-site:%s:%s' % (n['name'], case['method']))
+                    out.append('raw-site:sites-in-element:%d' % min(len(sites), 3))
+                    after_raw_site = True
+                if any(k['t'] == 'lit' and any(c in k['s'] for c in '<&') for k in n['kids']):
+                    out.append('raw-literal-with-lt-or-amp:%s' % case['method'])
+            elif n.get('t') == 'site' and after_raw_site:
+                out.append('site-after-raw-site:%s' % case['method'])
+            for key in ('kids',):
+                if isinstance(n.get(key), list):
+                    if n.get('t') == 'choose':
+                        for sub in n[key]:
+                            after_raw_site = walk(sub, after_raw_site)
+                    else:
+                        after_raw_site = walk(n[key], after_raw_site)
+        return after_raw_site
+    if case['mode'] == 'template':
+        walk(case['tmpl'], False)
+        if out:
+            for alts in raw_contents(case):
+                for s in alts[:1]:
+                    if any(c in s for c in '<&'):
+                        out.append('raw-content-hostile:html')
+            if raw_etago(case):
+                out.append('raw-content-etago:html(not-judged)')
+    return out
 
 
 def val_attr_str(v):
@@ -473,7 +569,14 @@ class Spec(object):
                     else:
                         attrs[name] = s.strip()        # "surrounding whitespace trimmed only for attribute dictionaries"
             out = [['S', n['name'], attrs]]
-            if n.get('content') is not None:
+            if n['name'] in RAW and self.case['method'] == 'html':
+                # raw text: the strings as they are emitted, safe or not (the property's exception: no escaping)
+                for kid in n['kids']:
+                    if kid['t'] == 'lit':
+                        out.append(T(kid['s']))
+                    else:
+                        out.extend(raw_val_toks(self.lookup(kid['e']['n'], env)))
+            elif n.get('content') is not None:
                 out.extend(self.expr_toks(n['content'], env))
             else:
                 out.extend(self.nodes_toks(n['kids'], env))
@@ -1055,10 +1158,44 @@ class Gen(object):
     def raw_el(self):
         """<script>/<style> with literal attributes and literal raw-safe text"""
         rng = self.rng
-        txt = rng.choice(RAW_TEXTS + [''])
+        if rng.random() < 0.5:
+            return self.raw_site_el()
+        txt = rng.choice(RAW_TEXTS + RAW_TEXTS2[:6] + [''])
         return {'t': 'el', 'name': rng.choice(RAW),
                 'attrs': [{'name': an, 'parts': [{'lit': av}]} for an, av in rng.choice(RAW_ATTRS)],
                 'kids': [{'t': 'lit', 's': txt}] if txt else []}
+
+    def raw_site_el(self):
+        """<script>/<style> holding literal text (with `<`, `&`) and substitution sites: under html the property's
+        exception (raw text), under xml / xhtml an ordinary element"""
+        rng = self.rng
+        kids = []
+        for _ in range(rng.randrange(1, 5)):
+            if rng.random() < 0.45:
+                if not (kids and kids[-1]['t'] == 'lit'):
+                    kids.append({'t': 'lit', 's': rng.choice(RAW_TEXTS + RAW_TEXTS2)})
+            else:
+                r = rng.random()
+                if r < 0.7:
+                    v = {'k': 's', 's': fit(rand_text(rng, self.method), self.method, 'text')}
+                elif r < 0.8:
+                    m = rng.choice(SAFE_MARKUP)
+                    v = {'k': 'm', 's': m['s'], 'toks': m['toks']}
+                elif r < 0.9:
+                    v = {'k': 'l', 'items': [{'k': 's', 's': fit(rand_text(rng, self.method), self.method, 'text')}
+                                             for _ in range(rng.randrange(0, 3))]}
+                else:
+                    v = rand_scalar(rng, self.method, 'text')
+                if self.method == 'html' and rng.random() < 0.85:
+                    # keep most html cases inside the stated domain: no `</` in the payload
+                    for x in ([v] if v['k'] != 'l' else v['items']):
+                        for key in ('s', 'str'):
+                            if isinstance(x.get(key), str) and x['k'] != 'm':
+                                x[key] = x[key].replace('</', '< /')
+                kids.append({'t': 'site', 'form': rng.choice(['brace', 'brace', 'dollar']), 'e': {'k': 'var', 'n': self.newvar(v)}})
+        return {'t': 'el', 'name': rng.choice(RAW),
+                'attrs': [{'name': an, 'parts': [{'lit': av}]} for an, av in rng.choice(RAW_ATTRS)],
+                'kids': kids}
 
     def static_el(self, depth=0):
         """an element without any substitution site: the same events every time it is written"""
@@ -1390,9 +1527,20 @@ def validate(case):
             raise OutsideGrammar('expr ' + str(k))
 
     def raw_ok(n):
-        if n.get('content') is not None or len(n['kids']) > 1:
+        if n.get('content') is not None or n.get('pyattrs') or 'for' in n:
             return False
-        return all(k['t'] == 'lit' and not any(c in k['s'] for c in '<&') for k in n['kids'])
+        for k in n['kids']:
+            if k['t'] == 'lit':
+                if '</' in k['s']:
+                    return False
+            elif k['t'] == 'site':
+                # `${v}` / `$v` with a context variable (not a loop variable: `lookup` of the skeleton is by name)
+                if k['form'] not in ('brace', 'dollar') or k['e'].get('k') != 'var' or k['e']['n'] not in data \
+                        or data[k['e']['n']]['k'] in ('pairs', 'fmtstr'):
+                    return False
+            else:
+                return False
+        return True
 
     def loop_expr(e, bound):
         if e['k'] == 'var':
@@ -1568,6 +1716,16 @@ def _site_templates():
     for form in ('brace', 'dollar', 'replace-attr', 'replace-el'):
         text('text:' + form, lambda v, form=form: ([{'t': 'lit', 's': 'a'}, {'t': 'site', 'form': form, 'e': V('v0')}, {'t': 'lit', 's': ' b'}],
                                                  {'v0': v}))
+    # wave 4: a site INSIDE a raw-text element (html: raw text, the exception; xml / xhtml: an ordinary element),
+    # the same value again after it
+    text('text:inside-script', lambda v: ([{'t': 'el', 'name': 'script', 'attrs': [], 'kids': [
+        {'t': 'lit', 's': 'var a = "'}, {'t': 'site', 'form': 'brace', 'e': V('v0')}, {'t': 'lit', 's': '"; if (a < 1 && b) { }'}]},
+        {'t': 'site', 'form': 'brace', 'e': V('v0')}], {'v0': v}))
+    text('text:inside-style-twice', lambda v: ([{'t': 'el', 'name': 'style', 'attrs': [{'name': 'type', 'parts': [{'lit': 'text/css'}]}],
+                                                 'kids': [{'t': 'site', 'form': 'dollar', 'e': V('v0')}, {'t': 'lit', 's': ' p > b { } '},
+                                                          {'t': 'site', 'form': 'brace', 'e': V('v0')}]},
+                                                {'t': 'el', 'name': 'p', 'attrs': [], 'kids': [{'t': 'site', 'form': 'brace', 'e': V('v0')}]}],
+                                               {'v0': v}))
     text('text:py:content', lambda v: ([{'t': 'el', 'name': 'p', 'attrs': [], 'kids': [], 'content': V('v0')}], {'v0': v}))
     text('text:for-body', lambda v: ([{'t': 'for', 'var': 'x1', 'e': V('v0'),
                                        'kids': [{'t': 'el', 'name': 'li', 'attrs': [], 'kids': [{'t': 'site', 'form': 'brace', 'e': V('x1')}]}]}],
@@ -1650,6 +1808,13 @@ def _prefixes():
     out.append(('repeated-elements', lambda t, s: [E('b', [L('x')], [('title', 't"<')]), E('b', [L('x')], [('title', 't"<')]),
                                                    E('br', []), E('br', []), E('i', []), E('i', [])] + t))
 
+    # wave 4: raw-text elements that themselves hold the payload (written twice: the second one is served from the
+    # serializer cache where the events are equal), then the site
+    def scripts_with_site(t, s):
+        sc = {'t': 'el', 'name': 'script', 'attrs': [], 'kids': [L('a<b && "'), {'t': 'site', 'form': 'brace', 'e': {'k': 'var', 'n': 'v0'}}]}
+        import copy
+        return [sc, copy.deepcopy(sc)] + t
+    out.append(('two-scripts-holding-the-payload', scripts_with_site))
     C = lambda s: {'t': 'cdata', 's': s}
     out.append(('cdata-then-site', lambda t, s: [C('x < y & z')] + t))
     out.append(('two-cdata-then-p', lambda t, s: [C('a'), E('i', []), C('a'), E('p', t)]))
@@ -1707,6 +1872,9 @@ def matrix_cases(method, strip, impl):
                 defs = [n for n in tmpl0 if n['t'] == 'def']          # macros stay at the top level
                 tmpl = wrap([n for n in tmpl0 if n['t'] != 'def'], s)
                 if tmpl is None:
+                    continue
+                if pname == 'two-scripts-holding-the-payload' and \
+                        ('v0' not in data or data['v0']['k'] in ('pairs', 'fmtstr', 'g')):      # a generator is consumed once
                     continue
                 cases.append({'mode': 'template', 'tmpl': defs + tmpl, 'data': data, 'method': method, 'strip': strip,
                               'impl': impl})
